@@ -136,6 +136,18 @@ func (t *runTarget) Evaluate(engine runner.Engine) error {
 		return nil
 	}
 
+	// A target that generates files may be running only because one of them is missing. If the
+	// process dies after the body has re-created the file, nothing else would make the next
+	// build run the target again, so remember that it must run until it has succeeded.
+	if len(t.target.generates()) != 0 && !info.Rerun {
+		pending := info
+		pending.Rerun = true
+		if err := proj.saveTargetInfo(label, pending); err != nil {
+			proj.events.TargetFailed(label, err)
+			return err
+		}
+	}
+
 	// Otherwise, evaluate the target.
 	verifhook.Crash("eval.beforeBody", label.String())
 	data, changed, err := t.target.evaluate()
